@@ -1,5 +1,6 @@
 """C02 - loading a script yields exactly the program the script denotes (P, EXH, GRD; DESIGN 5/C02)."""
 import ast
+from ..py.index import pos as _pos
 
 from ..report import Inconclusive
 from ..gram import model as gm
@@ -532,6 +533,8 @@ def c02_6(rep, ix):
     n = 0
     for a in walk_shallow(fn):
         if isinstance(a, (ast.Assign, ast.AugAssign)) and a is not un[0]:
+            if isinstance(a, ast.Assign) and _pos(a) < _pos(un[0]) and a in fn.body and all(isinstance(t, ast.Name) for t in a.targets) and isinstance(a.value, ast.Constant):
+                continue        # a placeholder bound before the extraction (`op_kwargs = None`): the extraction replaces it
             tgts = a.targets if isinstance(a, ast.Assign) else [a.target]
             for t in tgts:
                 base = t.value if isinstance(t, ast.Subscript) else t
